@@ -14,7 +14,7 @@ from mon.ref import mdp as Rf
 from mon.probe.wrap import wrap
 
 PROP = "C15"
-CASES = {"quick": 500, "thorough": 8000}
+CASES = {"quick": 500, "thorough": 30000}
 CASE_TIMEOUT = 90
 REQUIRED = ["augment_calls", "components_compared", "option_runs", "option_runs_returned",
             "semimdp_option_outcomes", "captured_simulations", "primitive_outcomes", "subtask_plans"]
